@@ -119,4 +119,13 @@ theorem tie_strategy_valid_conds :
        "MidUnallocatedPercent>=0", "MidUnallocatedPercent<=100", "BatchCPUThresholdPercent>=0", "BatchMemoryThresholdPercent>=0"] := by
   decide
 
+/-- (extension 8) the pod request the calculators charge comes from ONE helper, util.GetPodRequest, called once per pod in
+    calculateOnNode, calculateOnNUMALevel and midresource getUnallocated, and that helper calls resourcehelper.PodRequests
+    with the DEFAULT options: pod overhead is included (no ExcludeOverhead), pod-level resources and init containers are
+    honoured.  The model takes the request as an input; the harness computes it from the declared pod
+    (sum of containers + spec.overhead) without this helper. -/
+theorem tie_pod_request_default_options :
+    C09.getPodRequestCalls = ["PodRequests{}"] ∧
+    C09.getPodRequestSitesNode = 1 ∧ C09.getPodRequestSitesNUMA = 1 ∧ C09.getPodRequestSitesMid = 1 := by decide
+
 end KoordVerif.C09
